@@ -26,7 +26,17 @@ var c19Leaf = []reflect.Type{
 	reflect.TypeFor[uint](), reflect.TypeFor[uint8](), reflect.TypeFor[uint16](), reflect.TypeFor[uint32](), reflect.TypeFor[uint64](), reflect.TypeFor[uintptr](),
 	reflect.TypeFor[float32](), reflect.TypeFor[float64](), reflect.TypeFor[string](), reflect.TypeFor[[]byte](), reflect.TypeFor[[4]byte](),
 	reflect.TypeFor[time.Time](), reflect.TypeFor[time.Duration](), reflect.TypeFor[any](),
+	// named kinds: several v1 options (byte slices/arrays of a named byte type, named strings as map keys, …) only show on these
+	reflect.TypeFor[[]C19Byte](), reflect.TypeFor[[3]C19Byte](), reflect.TypeFor[C19Bytes](), reflect.TypeFor[C19Str](), reflect.TypeFor[C19Int](), reflect.TypeFor[C19Float](),
 }
+
+type (
+	C19Byte  byte
+	C19Bytes []byte
+	C19Str   string
+	C19Int   int32
+	C19Float float64
+)
 
 var c19KeyTypes = []reflect.Type{reflect.TypeFor[string](), reflect.TypeFor[int](), reflect.TypeFor[int8](), reflect.TypeFor[uint64]()}
 var c19OddKeyTypes = []reflect.Type{reflect.TypeFor[float64](), reflect.TypeFor[float32](), reflect.TypeFor[bool]()}
